@@ -74,4 +74,9 @@ TABLE_RNS_4K = [
                   ("self.base_q.base_at(#)", "baseQ", "List Modulus"), ("self.prod_B_mod_q[#]", "prodBModQ", "List Nat")],
      "extern": [{"rcall": "self.base_B_to_q_conv.fast_convert_array", "binder": "bToQF"},
                 {"rcall": "self.base_B_to_m_sk_conv.fast_convert_array", "binder": "bToMskF"}]},
+    {"file": UR, "fn": "fastbconv_m_tilde", "impl": "RNSTool", "model": "RNSTool.fastbconvMTilde", "nested_loops": True,
+     "abstract": [("self.base_q.len()", "qSize", "Nat"), ("self.base_Bsk.len()", "bskSize", "Nat"), ("self.coeff_count", "coeffCount", "Nat"),
+                  ("self.m_tilde", "mTilde", "Modulus"), ("self.base_q.base()", "baseQ", "List Modulus")],
+     "extern": [{"rcall": "self.base_q_to_Bsk_conv.fast_convert_array", "binder": "qToBskF"},
+                {"rcall": "self.base_q_to_m_tilde_conv.fast_convert_array", "binder": "qToMtF"}]},
 ]
